@@ -242,7 +242,7 @@ func (h *WorkloadHandler) handleDeployment(newObj, oldObj *apps.Deployment) (boo
 			if newObj.Spec.Strategy.Type == apps.RecreateDeploymentStrategyType {
 				modified = true
 				newObj.Spec.Strategy = oldObj.Spec.Strategy
-				klog.Warningf("")
+				klog.Warningf("Not allow to modify Strategy.Type to Recreate during rolling")
 			}
 		}
 		return modified, nil
